@@ -1,6 +1,6 @@
 (* C30 (extra) — whole-extraction theorem for the LOG semiring.  Only statements; proofs in C30/ProofsExtractLog.v.
    About the GENERATED definitions (C30/GenConstraint.v: extract_weights with weights=None, ad_update_weights;
-   C12/GenSemirings.v: log_*), instantiated at the reals.
+   C12/GenSemirings.v: the log_ methods), instantiated at the reals.
 
    Vocabulary (ProofsExtractLog.v):
      fact_ok x           x = RF v with -1e-9 <= v <= exp(1e-12)   (the interval of C30_fact_log)
